@@ -27,6 +27,14 @@ func reportCrash(c *sup.Ctx, r *crash.Run, o *crash.Outcome) {
 	c.Count("crash_runs", 1)
 	if !o.Opened {
 		c.Count("killed_before_open", 1)
+		if o.OpenedAfterInterruptedCreation {
+			c.Count("remains_of_an_interrupted_creation_accepted_by_a_later_open", 1)
+		}
+		for _, p := range o.Problems {
+			if kind, text := splitKind(p); kind == "half-created" {
+				c.Viol([]string{"C10"}, "crash|half-created|"+killClass(r), text, map[string]any{"run": r, "outcome": o})
+			}
+		}
 		return
 	}
 	c.Count("acks_seen", int64(o.Acks))
